@@ -209,7 +209,12 @@ where
                 inner.connecting.insert(token);
             }
             trace!("connecting to host");
-            Checkout::new(token, self.as_ref(), rx, connector, None, &inner.config)
+            let checkout = Checkout::new(token, self.as_ref(), rx, connector, None, &inner.config);
+            if multiplex {
+                checkout.owning_attempt()
+            } else {
+                checkout
+            }
         }
     }
 }
